@@ -33,6 +33,7 @@ class Abs:
 def abs_source(src, offset=0):
     n = src['n']
     d = src.get('kind', 'list') == 'dict'
+    # kind 'user': a user-written dataset (length, integer index, plain iteration)
     return Abs([(offset + i,) for i in range(n)], n, True, True, True, d, d)
 
 
